@@ -3,18 +3,35 @@ use crate::spec::*;
 use crate::util::*;
 use modbus_core::*;
 
-fn res_str<T, E>(r: Option<Result<T, E>>, f: impl FnOnce(&T) -> String) -> String {
+/// errors are compared with their payloads: `ERR Crc(4660, 22136)`, `ERR ByteCount(5)`, `ERR BufferSize`
+fn res_str<T, E: core::fmt::Debug>(r: Option<Result<T, E>>, f: impl FnOnce(&T) -> String) -> String {
     match r {
         Some(Ok(v)) => format!("OK {}", f(&v)),
-        Some(Err(_)) => "ERR".into(),
+        Some(Err(e)) => format!("ERR {e:?}"),
         None => "PANIC".into(),
     }
+}
+
+/// the raw bytes every `Coils` / `Data` inside `v` holds, read off the derived `Debug` output (the only public
+/// window on them besides `==`): `Coils { data: [1, 2], quantity: 9 }` -> `0102`
+pub fn raw_of<T: core::fmt::Debug>(v: &T) -> String {
+    let d = format!("{v:?}");
+    let mut out = vec![];
+    let mut rest = &d[..];
+    while let Some(i) = rest.find("data: [") {
+        let body = &rest[i + 7..];
+        let j = body.find(']').unwrap_or(body.len());
+        let bytes: Vec<u8> = body[..j].split(',').filter_map(|x| x.trim().parse::<u8>().ok()).collect();
+        out.push(if bytes.is_empty() { "-".to_string() } else { hex_of(&bytes) });
+        rest = &body[j..];
+    }
+    if out.is_empty() { "none".into() } else { out.join("/") }
 }
 
 fn enc_str(r: Option<Result<usize, Error>>, buf: &[u8]) -> String {
     match r {
         Some(Ok(n)) => format!("OK {} {}", n, hex_of(buf)),
-        Some(Err(_)) => "ERR".into(),
+        Some(Err(e)) => format!("ERR {e:?}"),
         None => "PANIC".into(),
     }
 }
@@ -107,7 +124,7 @@ fn len_str(r: Option<Result<Option<usize>, Error>>) -> String {
     match r {
         Some(Ok(Some(n))) => format!("SOME {n}"),
         Some(Ok(None)) => "NONE".into(),
-        Some(Err(_)) => "ERR".into(),
+        Some(Err(e)) => format!("ERR {e:?}"),
         None => "PANIC".into(),
     }
 }
@@ -123,7 +140,7 @@ fn opt_str<T>(r: Option<Result<Option<T>, Error>>, head: &str, f: impl FnOnce(&T
     match r {
         Some(Ok(Some(v))) => format!("{head} {}", f(&v)),
         Some(Ok(None)) => "NONE".into(),
-        Some(Err(_)) => "ERR".into(),
+        Some(Err(e)) => format!("ERR {e:?}"),
         None => "PANIC".into(),
     }
 }
@@ -189,11 +206,11 @@ fn step(t: &[&str]) -> String {
     match t[0] {
         "reqdec" if t.len() == 2 => {
             let Some(b) = parse_hex(t[1]) else { return bad() };
-            res_str(catch(|| Request::try_from(&b[..])), req_str)
+            res_str(catch(|| Request::try_from(&b[..])), |v| format!("{} raw={}", req_str(v), raw_of(v)))
         }
         "rspdec" if t.len() == 2 => {
             let Some(b) = parse_hex(t[1]) else { return bad() };
-            res_str(catch(|| Response::try_from(&b[..])), rsp_str)
+            res_str(catch(|| Response::try_from(&b[..])), |v| format!("{} raw={}", rsp_str(v), raw_of(v)))
         }
         "excdec" if t.len() == 2 => {
             let Some(b) = parse_hex(t[1]) else { return bad() };
@@ -203,7 +220,7 @@ fn step(t: &[&str]) -> String {
             let Some(b) = parse_hex(t[1]) else { return bad() };
             match catch(|| Request::try_from(&b[..])) {
                 Some(Ok(v)) => req_use(&v),
-                Some(Err(_)) => "ERR".into(),
+                Some(Err(e)) => format!("ERR {e:?}"),
                 None => "PANIC".into(),
             }
         }
@@ -211,7 +228,7 @@ fn step(t: &[&str]) -> String {
             let Some(b) = parse_hex(t[1]) else { return bad() };
             match catch(|| Response::try_from(&b[..])) {
                 Some(Ok(v)) => rsp_use(&v),
-                Some(Err(_)) => "ERR".into(),
+                Some(Err(e)) => format!("ERR {e:?}"),
                 None => "PANIC".into(),
             }
         }
@@ -379,7 +396,7 @@ fn step(t: &[&str]) -> String {
             let mut out = vec![t.len() == 5 && t[4] == "T"; o];
             match catch(|| unpack_coils(&b, c, &mut out)) {
                 Some(Ok(())) => format!("OK {}", bits_str(&out)),
-                Some(Err(_)) => "ERR".into(),
+                Some(Err(e)) => format!("ERR {e:?}"),
                 None => "PANIC".into(),
             }
         }
@@ -428,7 +445,7 @@ fn step(t: &[&str]) -> String {
                         })
                         .collect();
                     format!(
-                        "OK {} {} {} {} gx={} it={} nx={} n1={}",
+                        "OK {} {} {} {} gx={} it={} nx={} n1={} raw={}",
                         c.len(),
                         c.packed_len(),
                         b01(c.is_empty()),
@@ -436,10 +453,11 @@ fn step(t: &[&str]) -> String {
                         gx,
                         it,
                         nx,
-                        n1
+                        n1,
+                        raw_of(&c)
                     )
                 }
-                Some(Err(_)) => "ERR".into(),
+                Some(Err(e)) => format!("ERR {e:?}"),
                 None => "PANIC".into(),
             }
         }
@@ -479,9 +497,9 @@ fn step(t: &[&str]) -> String {
                         })
                         .collect::<Vec<_>>()
                         .join(",");
-                    format!("OK {} {} {} gx={} it={} nx={} n1={}", d.len(), b01(d.is_empty()), data_str(&d), gx, it, nx, n1)
+                    format!("OK {} {} {} gx={} it={} nx={} n1={} raw={}", d.len(), b01(d.is_empty()), data_str(&d), gx, it, nx, n1, raw_of(&d))
                 }
-                Some(Err(_)) => "ERR".into(),
+                Some(Err(e)) => format!("ERR {e:?}"),
                 None => "PANIC".into(),
             }
         }
